@@ -12,6 +12,7 @@ PROPS = {
     "C02": dict(level="exploration", shards=(4, 16), timeout=(900, 3000), assumptions=COMMON, fuzz=[("FuzzC02", 240)]),
     "C01": dict(level="exploration", shards=(4, 16), timeout=(600, 3000), assumptions=COMMON),
     "C03": dict(level="fault_enumeration", shards=(16, 16), timeout=(1200, 3400), assumptions=COMMON + ["loopback TCP; real TLS handshakes against an in-memory CA; the reference FSM in the harness is the RFC 6120 order as the property states it"]),
+    "C04": dict(level="fault_enumeration", shards=(16, 16), timeout=(1200, 3400), assumptions=COMMON + ["crypto/tls and crypto/x509 of Go 1.23 verify chains and host names correctly; the peer tags received elements clear-text / inside-TLS by the connection object they were read from"]),
     "C05": dict(level="exploration", shards=(4, 16), timeout=(900, 3000), assumptions=COMMON + ["loopback TCP / WebSocket deliver bytes in order; quiescence is detected by waiting (up to 5 s, 20 s on the confirming re-run) until the expected number of stanzas was routed"]),
     "C06": dict(level="exploration", shards=(2, 16), timeout=(300, 1500), assumptions=COMMON),
     "C09": dict(level="exploration", shards=(4, 16), timeout=(600, 3000), assumptions=COMMON + ["loopback TCP delivers bytes in order; the scripted peer's own count of stanzas it sent is the wire truth"]),
@@ -28,6 +29,11 @@ NOT_APPLICABLE = {}
 
 # Texts for MANIFEST.json
 TEXT = {
+    "C04": dict(
+        technique="exhaustive enumeration of the TLS configuration/fault space + rapid sampling; real TLS handshakes with generated certificates; transcript oracle (clear-text vs inside-TLS)",
+        level_text="Fault enumeration: every combination of client settings (Insecure, TLSConfig nil / test CA / InsecureSkipVerify, ServerName unset / domain / other), server STARTTLS behaviour (absent, offered, required; proceed, failure, unexpected, malformed, close), certificate (valid, wrong host, untrusted, expired, other-name-only, both) and first connection / reconnection is run against the scripted peer with a real TLS handshake (3240 combinations: all in the thorough tier, a seed-selected tenth plus 400 random ones in the quick tier). The peer tags each received element as clear text or inside TLS: no <auth/> or stanza may appear in clear text with Insecure off, none inside TLS when the certificate does not validate, and the legitimate combinations must authenticate inside TLS.",
+        level_note="wss:// needs system roots and is not exercised (documented in DESIGN.md); ws:// is covered for the clear-text rule only. The reconnection dimension uses Client.Resume after a server-side drop.",
+    ),
     "C03": dict(
         technique="fault-script enumeration + property-based generation (rapid) of negotiation scripts against a reference FSM; real Client against the scripted peer with real TLS",
         level_text="Fault enumeration: single faults {negotiation step} x {failure / stanza error incl. echoed payload, stream error, 8 unexpected elements, 5 malformed forms, 4 truncations, close, half-close} x {client configuration} are enumerated (completely in the thorough tier, a seed-selected 1/24 slice in the quick tier) and scripts with 0-2 deviations, success variants and resumable state from a real earlier connection are generated with rapid. A reference FSM decides the expected request sequence and outcome: Connect nil and one SessionEstablished event iff the server completed every mandatory step the client reaches, requests in FSM order and never beyond the fault, no request pending before the previous reply (one-directional look-ahead), bounded return time, no panic.",
